@@ -22,7 +22,7 @@ CHECKS = {
     "C20": ("streamsim", "exploration",
             "deterministic simulation: model-based read/seek histories over scripted short-read volumes; sandboxed extraction with canary surroundings",
             "Seeded search over (i) splits of a byte string into 1-6 volumes (empty ones included), each behind a scripted short-read source, driven by random read/seek histories and compared after every operation with std::io::Cursor over the concatenation (data, positions, error/ok of every seek); (ii) generated zip archives (nested dirs, hostile '..'/absolute names, odd characters, empty members; single file or multi-volume on disk) extracted through the real extract_archives() with generated glob patterns into a temp dir inside a sandbox whose parent, siblings and pre-existing neighbour files are scanned afterwards. Sampling, not proof.",
-            "Cursor is the reference for 'a single file'; the glob crate decides pattern matching; cancellation is only injected before extraction starts (no seam inside extract_to_dir's loop); member names that denote a directory ('x/..') are outside the input space.",
+            "Cursor is the reference for 'a single file'; the glob crate decides pattern matching; cancellation is injected before extraction starts and, through an in-memory archive source that raises the flag after k permille of the bytes have been read, while a member is being copied (then the same request is repeated); member names that denote a directory ('x/..') are outside the input space.",
             "DESIGN.md §6 C20"),
     "C05": ("worldsim", "exploration",
             "deterministic simulation: discrete-event world (ECUs, transport, recorder) with fault injection feeding the real lifecycle stage",
@@ -92,7 +92,7 @@ CHECKS = {
     "C15": ("remotesim", "exploration",
             "deterministic simulation: real remote server functions behind a loop replica under a simulated websocket client, in-memory transport, simulated clock and seeded shuttle schedules; session reference model",
             "Seeded search over command histories (1-26 commands from a grammar over all twelve commands with valid bodies, each parameter missing, wrong types, malformed JSON, unknown/stale/garbage ids, before open/after close, double open, client waits) x parsing progress (channel bounds, clock tick, short socket reads, schedules). Oracle: exactly one well-formed reply per command naming that command, none unsolicited, ok/err exactly as the session model predicts (open/closed, collect mode, live stream and query ids incl. self-terminating queries judged on frame order), close always answered and a following open succeeds, server loop alive until the client closes. Sampling, not proof.",
-            "TCP accept/event loop is the H2 replica; plain files only (archive extraction thread not simulated); liveness = reply within 30000 client polls.",
+            "TCP accept/event loop is the H2 replica; zip archives are opened in one session of twelve (utils/progress.rs is under the seam since round 5, so the extraction thread is a scheduled thread); liveness = reply within 30000 client polls.",
             "DESIGN.md §6 C15"),
     "C16": ("remotesim", "exploration",
             "deterministic simulation: library-level batching simulation of the stream bookkeeping + websocket sessions against a model of the filtered sequence under seeded schedules",
